@@ -501,7 +501,7 @@ func judgeQueries(c *mc.Ctx) []sm.Problem {
 		return env
 	}
 	red, plain := mkEnv("urns"), mkEnv("none")
-	props := []string{"urn", "tel", "twitter", "twitterid", "whatsapp", "mailto", "facebook", "telegram"}
+	props := []string{"urn", "tel", "twitter", "twitterid", "whatsapp", "mailto", "facebook", "telegram", "urns.tel", "urns.twitterid", "urns.whatsapp"}
 	ops := []string{"=", "!=", "~"}
 	for _, p := range props {
 		for _, op := range ops {
@@ -510,8 +510,14 @@ func judgeQueries(c *mc.Ctx) []sm.Problem {
 				c.Inc("urn_queries")
 				_, errR := contactql.ParseQuery(red, q, sa.Fields())
 				_, errP := contactql.ParseQuery(plain, q, sa.Fields())
+				form := "bare-scheme"
+				if p == "urn" {
+					form = "urn-attribute"
+				} else if strings.HasPrefix(p, "urns.") {
+					form = "urns-prefix"
+				}
 				if errR == nil {
-					ps = append(ps, sm.Problem{Key: "query-on-urns-accepted-under-redaction:" + p + ":" + op, What: "query `" + q + "` is accepted under the URN redaction policy"})
+					ps = append(ps, sm.Problem{Key: "query-on-urns-accepted-under-redaction:" + form, What: "query `" + q + "` is accepted under the URN redaction policy"})
 				}
 				if errP != nil && op != "~" {
 					ps = append(ps, sm.Problem{Key: "query-on-urns-rejected-without-redaction:" + p, What: "query `" + q + "` is rejected without the policy: " + errP.Error()})
@@ -519,7 +525,7 @@ func judgeQueries(c *mc.Ctx) []sm.Problem {
 				// inside a boolean combination too
 				q2 := `name = "x" OR (` + q + `)`
 				if _, err := contactql.ParseQuery(red, q2, sa.Fields()); err == nil {
-					ps = append(ps, sm.Problem{Key: "query-on-urns-accepted-under-redaction:nested:" + p + ":" + op, What: "query `" + q2 + "` is accepted under the URN redaction policy"})
+					ps = append(ps, sm.Problem{Key: "query-on-urns-accepted-under-redaction:nested:" + form, What: "query `" + q2 + "` is accepted under the URN redaction policy"})
 				}
 			}
 		}
